@@ -1059,9 +1059,12 @@ def get_output_filenames(
         ]
     )
 
-    filenames: "pd.Series" = df_filenames["filename"].apply(
-        lambda filename: Path(filename).relative_to(output_dir)
-    )
+    def _to_relative_path(filename: str | Path) -> Path:
+        # Note: the filenames from a sequential 'Observation' are already relative
+        path = Path(filename)
+        return path.relative_to(output_dir) if path.is_absolute() else path
+
+    filenames: "pd.Series" = df_filenames["filename"].apply(_to_relative_path)
 
     del df_filenames["filename"]
     df_filenames["filename"] = filenames
